@@ -733,7 +733,7 @@ func connBody(c *runner.Ctx) {
 		case op == 10 && h.faulty && c.Choose(2, "garbage-or-wild") == 0:
 			// arbitrary arguments and variables: answered with updates or with an
 			// error, the connection keeps working
-			text, vars := wildQuery(c)
+			text, vars := wildQuery(c, w)
 			c.Fault("arbitrary-arguments")
 			desc = append(desc, "wild("+text+")")
 			in := &instance{inst: len(h.instances), id: id, root: &qset{}, text: text, wild: true}
